@@ -6,7 +6,10 @@ import os
 import props
 
 CXX = "clang++"
-BASE = "-std=gnu++17 -g -O1 -fno-omit-frame-pointer -Wno-deprecated-declarations"
+# -ftrivial-auto-var-init=pattern: an uninitialised automatic variable holds 0xAA.. instead of whatever
+# the stack happened to contain (mostly zeros in a harness), so a read of one changes the outcome
+# reproducibly.  Code that reads no uninitialised memory is unaffected.
+BASE = "-std=gnu++17 -g -O1 -fno-omit-frame-pointer -Wno-deprecated-declarations -ftrivial-auto-var-init=pattern"
 SAN = {
     "asan": "-fsanitize=address,undefined -fno-sanitize-recover=undefined",
     "tsan": "-fsanitize=thread",
